@@ -108,6 +108,7 @@ fn gens(tier: Tier) -> Vec<Gen> {
     vec![
         Gen { name: "matrix", count: matrix_size(), exhaustive: true, run: run_matrix_whole },
         Gen { name: "matrix-bytewise", count: tier.pick(matrix_size() / 7, matrix_size()), exhaustive: tier == Tier::Thorough, run: run_matrix_bytewise },
+        Gen { name: "redirect-bad-length", count: (5 * 8) as u64, exhaustive: true, run: run_redirect_bad_length },
         Gen { name: "matrix-randomseg", count: tier.pick(0, matrix_size()), exhaustive: false, run: run_matrix_random },
     ]
 }
@@ -267,4 +268,42 @@ fn classify(delivered: &[u8], body_wire: &[u8]) -> String {
     } else {
         "other".into()
     }
+}
+
+/// a redirect response is framed like any other: an unusable Content-Length fails the exchange
+/// even though the body of a followed redirect is never looked at
+fn run_redirect_bad_length(ctx: &mut Ctx, _rng: &mut Rng, index: u64) {
+    let status = [301u16, 302, 303, 307, 308][(index % 5) as usize];
+    let cls: [&[&str]; 8] = [&["Content-Length: abc"], &["Content-Length: -1"], &["Content-Length: "], &["Content-Length: 18446744073709551616"], &["Content-Length: 3", "Content-Length: 4"], &["Content-Length: 0"], &["Content-Length: 2", "Content-Length: 2"], &[]];
+    let cl = cls[(index / 5) as usize];
+    let valid = (index / 5) >= 5;
+    let mut first = format!("HTTP/1.1 {status} Moved\r\nLocation: /next\r\n").into_bytes();
+    for l in cl {
+        first.extend_from_slice(l.as_bytes());
+        first.extend_from_slice(b"\r\n");
+    }
+    first.extend_from_slice(b"\r\n");
+    if cl == ["Content-Length: 2", "Content-Length: 2"] {
+        first.extend_from_slice(b"ok");
+    }
+    let first2 = first.clone();
+    let world = World::install(move |_, idx, _| {
+        let resp = if idx == 0 { first2.clone() } else { b"HTTP/1.1 200 OK\r\nContent-Length: 5\r\n\r\nfinal".to_vec() };
+        crate::transport::Answer::Script(vec![crate::transport::Step::Data(resp)], crate::transport::WriteFaults::default())
+    });
+    let res = attohttpc::get("http://origin.test/start").send();
+    let outcome = match &res {
+        Ok(r) => format!("ok:{}", r.status().as_u16()),
+        Err(e) => format!("err:{}", short_err(&format!("{e:?}"))),
+    };
+    ctx.count(if valid { "expect_length" } else { "expect_fail" }, 1);
+    let descr = format!("followed redirect {status} with {cl:?}: {outcome}, {} connections", world.dial_count());
+    if valid {
+        if !(outcome == "ok:200" && world.dial_count() == 2) {
+            ctx.violation("exchange-failed:redirect-with-valid-length", descr.clone());
+        }
+    } else if res.is_ok() || world.dial_count() != 1 {
+        ctx.violation("bad-length-accepted:followed-redirect", format!("an unusable Content-Length on a redirect response must fail the exchange before anything is followed; {descr}"));
+    }
+    ctx.nontrivial(descr.as_bytes());
 }
